@@ -1,3 +1,4 @@
+import MySensors.Driver.StopCmd
 import MySensors.Driver.Wire
 import MySensors.Driver.GwCmd
 import MySensors.Driver.PersistCmd
@@ -35,7 +36,8 @@ def valCmd (cmd : String) (args : List String) : Option String :=
 
 /-- state-free command groups; each property family adds its own `…Cmd` here -/
 def cmdTable : List (String → List String → Option String) :=
-  [codecCmd, valCmd, mqttCmd, framingCmd, otaCmd, persistCmd, tablesCmd, specCmd, Transport.trCmd, Transport.supCmd]
+  [codecCmd, valCmd, mqttCmd, framingCmd, otaCmd, persistCmd, tablesCmd, specCmd, Transport.trCmd, Transport.supCmd,
+   stopCmd]
 
 /-- one protocol line → new driver state and one output line -/
 def stepLine (st : DState) (line : String) : DState × String :=
